@@ -15,6 +15,7 @@ E1_NOTE = "Trusted: the harness's reference model and canonical key (DESIGN.md a
 NOT_APPLICABLE = {}
 
 ENGINES = [
+    {'name': 'faultx', 'path': 'worlds/fault_world.c', 'serves_properties': ['C16'], 'kind_free_text': 'exhaustive allocation-fault enumeration over scripted histories (ld --wrap on malloc/calloc/realloc/free), reference model per step, leak audit'},
     {'name': 'schedx', 'path': 'engine/sched.c', 'serves_properties': ['C06'], 'kind_free_text': 'controlled scheduler: ucontext coroutines, the -fsanitize=thread compiler ABI implemented by the harness so that every shared-memory access of the unmodified library is a scheduling point; stateless DFS over all interleavings with visited-state pruning'},
     {'name': 'seqx', 'path': 'engine/mc.h', 'serves_properties': ['C01', 'C02', 'C03', 'C04', 'C05', 'C07', 'C08', 'C12', 'C09', 'C10', 'C13', 'C14', 'C15', 'C19'], 'kind_free_text': 'explicit-state breadth-first closure search over the real library code; state = operation history replayed on fresh objects, deduplicated by a canonical serialisation of the real data structure; reference model + oracles on every transition'},
 ]
@@ -174,5 +175,15 @@ PROPS = {
         'rule': 'every scenario explored to exhaustion; states = distinct scheduler states (visited set), transitions = executed steps out of new states; a state is counted non-trivial always (every state is a multi-thread scheduling choice point)',
         'assumptions': ['sequential consistency (SC interleavings only)', 'at most 4 threads, programs of at most 3 operations', 'scheduling points at every instrumented access to library-allocated memory; accesses to a thread\'s own pointer objects are thread-private'],
         'deadline': {'quick': 240, 'thorough': 3000},
+    },
+    'C16': {
+        'level': 'fault_enumeration',
+        'engine': 'faultx',
+        'claim': 'Exhaustive fault enumeration: for each of seven operation scripts (map, vector with constructor/destructor, string, wstring, hash incl. failed resize followed by later successful ones, unique/shared/weak pointers, array incl. re-targeting a sliced object) every single allocation call failing, every suffix of allocation calls failing, every pair and every triple is executed (call ordinals counted within each execution); after every step the container is compared with a reference model and must either show the normal result or - only when a fault was injected in that step - the documented failure with the previous content intact; the script then continues, everything is cleared and the allocation layer audits leaks, double frees and foreign frees; all under AddressSanitizer.',
+        'note': 'Trusted: the scripts and their reference models; interposition of malloc/calloc/realloc with ld --wrap (every allocation the library makes goes through these). Fault sets of size <= 3 plus all suffixes; larger fault sets are not enumerated.',
+        'technique': 'exhaustive enumeration of allocation-fault sets (deviation-bounded: 0,1,2,3 faults + all suffixes) over scripted histories on the real code, reference model per step',
+        'jobs': [{'world': 'faultx', 'src': 'worlds/fault_world.c', 'lib': ['map.c', 'rbtree.c', 'bintree.c', 'vector.c', 'string.c', 'memory.c', 'array.c', 'common.c'], 'unity': True, 'flavours': RELDBG_ALWAYS}],
+        'rule': 'one evaluation = one complete script run under one fault set; non-trivial = runs in which at least one allocation failure was actually injected (every enumerated fault set is distinct)',
+        'assumptions': ['fault sets of size <= 3 and all suffixes', 'allocation failure is the only injected fault'],
     },
 }
